@@ -10,7 +10,7 @@
     plus 1024 an Info field does not decode (by the specification reader) to the input, 2048 Lang,
     4096 panic, 8192 the tokeniser could not read the file. *)
 From Coq Require Import ZArith List Bool String.
-From CV Require Import Pdf.Strings Pdf.Objects Pdf.Check Pdf.TextObj.
+From CV Require Import Pdf.Strings Pdf.Objects Pdf.Check Pdf.TextObj Pdf.Meta.
 Import ListNotations.
 Open Scope Z_scope.
 
@@ -26,29 +26,6 @@ Fixpoint str_list_eqb (a b : list string) : bool :=
   | [], [] => true
   | x :: a', y :: b' => String.eqb x y && str_list_eqb a' b'
   | _, _ => false
-  end.
-
-Definition field_raw (d : list (string * pval)) (key : string) : option (list Z) :=
-  match dget key d with Some (VStr raw) => Some raw | _ => None end.
-
-(** property: the field, read by the specification reader and decoded as a text string, is the input *)
-Definition field_ok (d : list (string * pval)) (key : string) (inp : list Z) : bool :=
-  match dget key d with
-  | None => match inp with [] => true | _ => false end
-  | Some (VStr raw) =>
-      match read_literal_token raw with
-      | Some bytes => match decode_text bytes with Some cps => list_eqb cps inp | None => false end
-      | None => false
-      end
-  | Some _ => false
-  end.
-
-(** tie: the raw token is what the writer model prints *)
-Definition field_tie (d : list (string * pval)) (key : string) (inp : list Z) : bool :=
-  match dget key d with
-  | None => match inp with [] => true | _ => false end
-  | Some (VStr raw) => list_eqb raw (write_literal (encode_text inp))
-  | Some _ => false
   end.
 
 Definition info_dict (f : pfile) : list (string * pval) :=
